@@ -232,6 +232,8 @@ def match_known(f, known):
             continue
         if "after" in k and f.get("after") not in k["after"]:
             continue
+        if "cause" in k and (f.get("detail") if isinstance(f.get("detail"), dict) else {}).get("cause") != k["cause"]:
+            continue
         return k
     return None
 
